@@ -3,6 +3,7 @@ import json
 import numpy as np
 
 from harness.core import Machinery
+from harness.proj import relayout
 from checks.flowgrid import quiet as quiet_stdout
 
 LEVEL = "model_checking"
@@ -52,9 +53,16 @@ def spec_to_code(ctx, gutils, Grid, cfg):
                 poly, info = _variant(c["poly"], h)
                 pts = (allpts[keep] + [info["tx"], info["ty"]]) * info["scale"]
                 poly = ((np.array(poly, dtype=float) + [info["tx"], info["ty"]]) * info["scale"]).tolist()
-            pa = np.array(poly, dtype=float)
+            pa = relayout(np.array(poly, dtype=float), h // 3 + variant)
+            pts = relayout(pts, h // 11 + variant)
             p0, q0a = pa.copy(), pts.copy()
             try:
+                try:
+                    gutils.points_inside_polygon(pts[:1], pa)
+                except (ValueError, TypeError):
+                    # this storage layout is not accepted by the wrapper (Python exception): use plain arrays
+                    pa, pts = np.ascontiguousarray(pa, dtype=float), np.ascontiguousarray(pts, dtype=float)
+                    p0, q0a = pa.copy(), pts.copy()
                 if (h + variant) % 2:
                     buf = np.ones(len(pts), dtype=np.int32) * 7
                     got = gutils.points_inside_polygon(pts, pa, inside=buf)
